@@ -16,6 +16,8 @@ package main
 //            summary, channel event, ticket with topic and assignee, opt-in, campaign) with a contact that has groups,
 //            fields, a channel-bound URN and a ticket; every asset kind is deleted in turn before the first resume and
 //            the session read over the reduced assets must itself be persistable
+//   hunt-*    the inputs of the C02 bug hunt (/verif/hunt/C02 findings 1-8): typed text as legacy variable, URN path,
+//            number / datetime field value, read_chars argument; URNs of a definition; a message UUID that is not v4
 //   exited-child-flow  templates reading the flow of an exited child / exited parent after a restart; msg trigger with
 //            a keyword match built through the builder API (mutation trials M13, M14 in checks/C02.mutations.md)
 
@@ -166,6 +168,53 @@ func corpusScenarios() []*Scenario {
 				"default_country": "US", "redaction_policy": "none", "input_collation": "default"}
 			return t
 		}(), []json.RawMessage{msg(0, "a"), msg(1, "b")}},
+		// C02 bug hunt (/verif/hunt/C02): what the contact types reaches, through @input.text, a place that is read back with
+		// more checks or less information than the live engine had
+		{"hunt-legacy-var-uuid", []any{flowDef(1, waitNode(101, 102),
+			actionNode(102, 103, map[string]any{"type": "send_broadcast", "text": "hi", "legacy_vars": []string{"@input.text"}},
+				map[string]any{"type": "start_session", "flow": flowRefJSON(1), "legacy_vars": []string{"@input.text"}}),
+			waitNode(103, 102))},
+			manual(false), []json.RawMessage{msg(0, "0a1b2c3d-0000-1000-8000-000000000000"), msg(1, "5D76D86B-3BB9-4D5A-B822-C9D86F5D8E4F"), msg(2, "5d76d86b-3bb9-4d5a-b822-c9d86f5d8e4f")}},
+		{"hunt-definition-urn", []any{flowDef(1, waitNode(101, 102),
+			actionNode(102, 103, map[string]any{"type": "send_broadcast", "text": "hi", "urns": []string{"tel:"}}),
+			waitNode(103, 104),
+			actionNode(104, 0, map[string]any{"type": "start_session", "flow": flowRefJSON(1), "urns": []string{"mailto:"}}))},
+			manual(false), []json.RawMessage{msg(0, "a"), msg(1, "b")}},
+		{"hunt-urn-path", []any{flowDef(1, waitNode(101, 102),
+			actionNode(102, 103, map[string]any{"type": "add_contact_urn", "scheme": "tel", "path": "@input.text"}, map[string]any{"type": "send_msg", "text": storedReaders}),
+			waitNode(103, 102))},
+			manual(false), []json.RawMessage{msg(0, "+12065551213?%zz"), msg(1, "+12065551214?a;b"), msg(2, "c")}},
+		{"hunt-long-number", []any{flowDef(1, waitNode(101, 102),
+			actionNode(102, 103, map[string]any{"type": "set_contact_field", "field": map[string]any{"key": "age", "name": "Age"}, "value": "@input.text"},
+				map[string]any{"type": "send_msg", "text": storedReaders}),
+			waitNode(103, 102))},
+			manual(false), []json.RawMessage{msg(0, "0."+strings.Repeat("0", 1001)+"1"), msg(1, "b")}},
+		{"hunt-read-chars", []any{flowDef(1, waitNode(101, 102),
+			actionNode(102, 103, map[string]any{"type": "set_run_result", "name": "rc", "value": "@(read_chars(input.text))"}, map[string]any{"type": "send_msg", "text": storedReaders}),
+			waitNode(103, 104), actionNode(104, 102, map[string]any{"type": "send_msg", "text": storedReaders}))},
+			manual(false), []json.RawMessage{msg(0, "ééé"), msg(1, "b"), msg(2, "éééé"), msg(3, "d")}},
+		{"hunt-datetime-field", []any{flowDef(1, waitNode(101, 102),
+			actionNode(102, 103, map[string]any{"type": "set_contact_field", "field": map[string]any{"key": "joined", "name": "Joined"}, "value": "@input.text"},
+				map[string]any{"type": "send_msg", "text": storedReaders}),
+			waitNode(103, 104), actionNode(104, 102, map[string]any{"type": "send_msg", "text": storedReaders}))},
+			func() map[string]any {
+				t := manual(false)
+				t["environment"] = map[string]any{"date_format": "YYYY-MM-DD", "time_format": "tt:mm", "timezone": "America/New_York", "allowed_languages": []string{"eng"},
+					"default_country": "US", "redaction_policy": "none", "input_collation": "default"}
+				return t
+			}(), []json.RawMessage{msg(0, "2024-01-15 10:00"), msg(1, "b"), msg(2, "2024-01-15T10:00:00.123456789Z"), msg(3, "d")}},
+		{"hunt-labels-msg-uuid", []any{flowDef(1, waitNode(101, 102),
+			actionNode(102, 103, map[string]any{"type": "add_input_labels", "labels": []any{map[string]any{"uuid": lblSpam, "name": "Spam"}}}),
+			waitNode(103, 102))},
+			manual(false), func() []json.RawMessage {
+				out := []json.RawMessage{}
+				for i, u := range []string{"0190a3f2-7c1e-7abc-8def-0123456789ab", "9BF91C2B-CE58-4CEF-AACC-000000000001"} {
+					b, _ := json.Marshal(map[string]any{"type": "msg", "resumed_on": "2020-01-01T13:00:00.000000000-00:00",
+						"msg": map[string]any{"uuid": u, "text": fmt.Sprint("m", i), "urn": "tel:+12024561111", "channel": map[string]any{"uuid": chanUUID, "name": "Android"}}})
+					out = append(out, b)
+				}
+				return out
+			}()},
 		{"exited-child-flow", []any{
 			flowDef(1, actionNode(101, 102, map[string]any{"type": "enter_flow", "flow": flowRefJSON(2)}), waitNode(102, 103),
 				actionNode(103, 104, map[string]any{"type": "send_msg", "text": "c=@child f=@child.flow.name s=@child.status r=@child.results.r0.value"}), waitNode(104, 105),
